@@ -199,6 +199,19 @@ def main(argv=None):
         mine = [v for v in res["violations"] if v["property"] == prop and match_known(known, prop, v, res) is f]
         if mine:
             known_lines.append(f"KNOWN-FINDING: property={prop} {f['id']}: {f['what_fails']}")
+    # regression replays of repaired defects (explicit pinned scenarios): a violation that returns is reported again
+    import glob as _glob
+
+    nreg = 0
+    for path in sorted(_glob.glob(os.path.join(ROOT, "regress", f"{prop}-*.json"))):
+        with open(path) as fh:
+            rp = json.load(fh)
+        res = runner.execute(rp["family"], rp["property"], dict(rp.get("params") or {}), trace=rp.get("trace") or [])
+        nreg += 1
+        mine = [v for v in res["violations"] if v["property"] == prop and match_known(known, prop, v, res) is None]
+        if mine:
+            violation_lines.append((f"VIOLATION property={prop} replay={path}", mine[0]))
+            rc = 1
     for fam, focus, rq, rt, params in spec["stages"]:
         if args.stage and args.stage != fam:
             continue
